@@ -1,6 +1,6 @@
 #!/usr/bin/env python3
 """./check Cnn [--tier quick|thorough] [--replay file]   (see DESIGN.md section 5)"""
-import argparse, importlib, json, os, sys, time, traceback
+import argparse, re, importlib, json, os, sys, time, traceback
 
 TOOLS = os.path.dirname(os.path.abspath(__file__))
 sys.path.insert(0, TOOLS)
@@ -87,10 +87,23 @@ def main():
         ctx.cleanup()
         sys.exit(2)
     ctx.build_info["repo_hash"] = pvbuild.repo_only_hash()
-    ctx.build_info["consts_regenerated"] = gen_consts.generate(ctx.bdir)
+    consts_err = None
+    try:
+        ctx.build_info["consts_regenerated"] = gen_consts.generate(ctx.bdir)
+    except Exception as e:
+        # the dumper runs the real code (tables, Wait() results, formatter sizes) under the sanitizers; if it dies the generated
+        # constants are those of the previous run: every property's obligations are unconfirmed until a failing input shows why
+        msg = str(e)
+        m = re.search(r"SUMMARY: (\S+: \S+ [^\n]*)", msg)
+        consts_err = ("the constants / rule tables could not be regenerated from the current tree: harness/consts_main.cc died"
+                      + (" (" + m.group(1).strip() + ")" if m else ": " + msg.strip().split("\n")[-1][:200]))
+        ctx.build_info["consts_regenerated"] = "FAILED"
+        ctx.notes.append({"consts_dumper_failed": msg[-1500:]})
     utf8_changed, utf8_err = gen_utf8.generate()
     ctx.build_info["utf8_regenerated"] = utf8_changed
     broken, driver_ok = lean_stage(ctx)
+    if consts_err:
+        broken.append(consts_err)
     if utf8_err and prop in gen_utf8.DEPENDENT:
         broken.append(utf8_err)
     if a.replay:
